@@ -100,16 +100,28 @@ class SymExec:
 
     def _inline(self, e: ast.AST, env: Env, depth: int) -> ast.AST:
         helpers = self.helpers
-        if not any(isinstance(x, ast.Call) and isinstance(x.func, ast.Name) and x.func.id in helpers for x in ast.walk(e)):
+
+        def key_of(call):
+            if isinstance(call.func, ast.Name):
+                return call.func.id
+            if isinstance(call.func, ast.Attribute) and isinstance(call.func.value, ast.Name) and call.func.value.id in ('self', 'cls'):
+                return f'self.{call.func.attr}'
+            return None
+
+        if not any(isinstance(x, ast.Call) and key_of(x) in helpers for x in ast.walk(e)):
             return e
         me = self
 
         class T(ast.NodeTransformer):
             def visit_Call(self, node):
                 self.generic_visit(node)
-                if isinstance(node.func, ast.Name) and node.func.id in helpers:
-                    h, body = helpers[node.func.id]
+                if key_of(node) in helpers:
+                    h, body = helpers[key_of(node)]
                     names = [a.arg for a in h.args.posonlyargs + h.args.args]
+                    recv_bind = {}
+                    if key_of(node).startswith('self.'):
+                        recv_bind = {names[0]: node.func.value}
+                        names = names[1:]
                     if len(node.args) > len(names) or any(isinstance(a, ast.Starred) for a in node.args):
                         return node
                     bound = dict(zip(names, node.args))
@@ -129,8 +141,9 @@ class SymExec:
                             else:
                                 return node
                     # free names of the helper body are read from the environment at the call (late binding)
-                    full = {k: v for k, v in env.items() if k not in bound}
+                    full = {k: v for k, v in env.items() if k not in bound} if not recv_bind and h.name in {x.name for x in me.fnode.body if isinstance(x, ast.FunctionDef)} else {}
                     full.update(bound)
+                    full.update(recv_bind)
                     return me.subst(body, full, depth - 1)
                 return node
 
